@@ -29,7 +29,34 @@ pub fn be32(x: &BigUint) -> [u8; 32] {
 pub fn scalar_class(p: &mut Prng, order: &BigUint) -> (BigUint, &'static str) {
     let top = order - 2u32; // inclusive upper bound
     let reduce = |v: BigUint| -> BigUint { (v % &top) + 1u32 };
-    match p.below(10) {
+    match p.below(12) {
+        10 | 11 => {
+            // limb boundaries: some 64-bit limbs all ones or all zero (carry / borrow chains),
+            // built without a modular reduction so that the pattern survives
+            let mut limbs = [0u64; 4];
+            for l in limbs.iter_mut() {
+                *l = match p.below(3) {
+                    0 => u64::MAX,
+                    1 => 0,
+                    _ => p.next_u64(),
+                };
+            }
+            if p.chance(1, 2) {
+                limbs[0] = u64::MAX; // least significant limb
+            }
+            let hi_bound = (&top >> 192u32).to_u64_digits().first().copied().unwrap_or(0);
+            if limbs[3] >= hi_bound {
+                limbs[3] = if hi_bound > 0 { p.below(hi_bound) } else { 0 };
+            }
+            let mut v = BigUint::zero();
+            for i in (0..4).rev() {
+                v = (v << 64u32) | BigUint::from(limbs[i]);
+            }
+            if v.is_zero() {
+                v = BigUint::one();
+            }
+            (v, "limb-boundary")
+        }
         0 => (BigUint::one(), "1"),
         1 => (BigUint::from(2u32), "2"),
         2 => (top.clone(), "order-2"),
